@@ -60,9 +60,12 @@ class MemBroker(BaseBroker):
         :return: The next invocation id from the queue, or None if the queue is empty.
         :rtype: InvocationId | None
         """
-        if self._queue:
+        try:
+            # popleft is atomic; a separate emptiness test would let a concurrent
+            # retriever empty the queue in between and make this call raise
             return self._queue.popleft()
-        return None
+        except IndexError:
+            return None
 
     def count_invocations(self) -> int:
         """
